@@ -1296,6 +1296,306 @@ def judge_iso16(inp, obs, lr):
     return None
 
 
+# ------------------------------------------------------------------------------------------------
+# objects with a HISTORY: Transformation and Point objects that answered queries and were then changed through every
+# mutating API (item assignment in all key forms, set(), the setter forms of affine_coords / projective_coords with
+# dtype promotions), copied, inverted or multiplied — after every step each query of the property must equal the same
+# query on a FRESH object built from the object's current data, and the data must be what the harness tracked
+# ------------------------------------------------------------------------------------------------
+from copy import copy as _shallow
+
+
+def _diagble(r, m, cplx=False):
+    while True:
+        g = r.normal(size=(m, m)) + (1j * r.normal(size=(m, m)) if cplx else 0)
+        if np.linalg.cond(g) < 20:
+            break
+    lam = r.permutation(np.arange(1, m + 1)) * 0.5 + 0.25
+    return np.linalg.inv(g) @ np.diag(lam) @ g, lam
+
+
+def gen_hist(rng, n):
+    for _ in range(n):
+        yield {"obj": rng.choice(["transformation", "transformation", "point"]), "m": rng.choice([2, 3, 4]),
+               "stack": rng.choice([0, 0, 3, 4]), "seed": rng.randrange(10 ** 9), "nsteps": rng.randint(3, 7),
+               "dtype": rng.choice(["float64", "float64", "complex128", "int64", "float32"])}
+
+
+def _eig_queries(T, target):
+    out = []
+    for ev in (target, None):
+        try:
+            out.append(np.asarray(T.eigenvector(ev).proj_data).astype(complex))
+        except GeometryError:
+            out.append("GeometryError")
+    M = T.diagonalize()
+    out.append(np.asarray(M.proj_data).astype(complex))
+    return out
+
+
+def _same_q(a, b):
+    if isinstance(a, str) or isinstance(b, str):
+        return isinstance(a, str) and isinstance(b, str)
+    return a.shape == b.shape and bool(np.all(np.abs(a - b) <= 1e-12 * (1 + np.abs(b))))
+
+
+def _hist_transformation(inp, bad):
+    r = np.random.default_rng(inp["seed"])
+    m, k = inp["m"], inp["stack"]
+    cplx = inp["dtype"] == "complex128"
+    def fresh_mats(cnt):
+        return np.array([_diagble(r, m, cplx)[0] for _ in range(cnt)])
+    cur = fresh_mats(k) if k else fresh_mats(1)[0]
+    T = P.Transformation(cur.copy())
+    copies = []          # (object, data it must still have) for copies that must be independent of rebinding operations
+    target = 0.75
+    def differential(obj, data, what):
+        d = np.asarray(obj.proj_data)
+        if d.shape != data.shape or not np.all(np.abs(d - data) <= 1e-12 * (1 + np.abs(data))):
+            bad.append([what, "object data differs from the tracked data"])
+            return
+        qa, qb = _eig_queries(obj, target), _eig_queries(P.Transformation(np.array(d, copy=True)), target)
+        if not all(_same_q(x, y) for x, y in zip(qa, qb)):
+            bad.append([what, "eigenvector / diagonalize differ from a fresh object with the same matrix"])
+    _eig_queries(T, target)           # the object answers queries first (warms whatever it may cache)
+    for step in range(inp["nsteps"]):
+        op = r.choice(["setitem", "setitem", "set", "copy_then_set", "inv", "product", "query"])
+        what = "step %d: %s" % (step, op)
+        if op == "setitem":
+            if cur.ndim == 2:
+                form = r.choice(["ellipsis", "slice_all"])
+                M = fresh_mats(1)[0]
+                if form == "ellipsis":
+                    T[...] = M
+                else:
+                    T[:] = M
+                cur = M.copy()
+            else:
+                form = r.choice(["int", "neg_int", "slice", "list", "mask", "ellipsis"])
+                cnt = cur.shape[0]
+                if form == "int":
+                    i = int(r.integers(0, cnt)); M = fresh_mats(1)[0]; T[i] = M; cur[i] = M
+                elif form == "neg_int":
+                    M = fresh_mats(1)[0]; T[-1] = M; cur[-1] = M
+                elif form == "slice":
+                    M = fresh_mats(2); T[:2] = M; cur[:2] = M
+                elif form == "list":
+                    M = fresh_mats(2); T[[0, cnt - 1]] = M; cur[[0, cnt - 1]] = M
+                elif form == "mask":
+                    mask = np.zeros(cnt, dtype=bool); mask[[0, cnt - 1]] = True
+                    M = fresh_mats(2); T[mask] = M; cur[mask] = M
+                else:
+                    M = fresh_mats(cnt); T[...] = M; cur = M.copy()
+            what += " (%s)" % form
+        elif op == "set":
+            cur = fresh_mats(cur.shape[0]) if cur.ndim == 3 else fresh_mats(1)[0]
+            T.set(cur.copy())
+        elif op == "copy_then_set":
+            old = np.array(np.asarray(T.proj_data), copy=True)
+            copies.append((_shallow(T), old, "shallow copy taken before set()"))
+            copies.append((P.Transformation(T), old, "constructor copy taken before set()"))
+            cur = fresh_mats(cur.shape[0]) if cur.ndim == 3 else fresh_mats(1)[0]
+            T.set(cur.copy())
+        elif op == "inv":
+            Ti = T.inv()
+            differential(Ti, np.linalg.inv(cur), what + " -> inverse object")
+        elif op == "product":
+            other = P.Transformation(fresh_mats(1)[0])
+            _eig_queries(other, target)
+            img = T @ other                 # apply: copy(other) + set
+            differential(img, np.asarray(other.proj_data) @ cur, what + " -> T @ other")
+            img2 = other @ T
+            differential(img2, cur @ np.asarray(other.proj_data), what + " -> other @ T")
+        differential(T, cur, what)
+        if len(bad) >= 3:
+            return
+    for obj, data, label in copies:
+        d = np.asarray(obj.proj_data)
+        if d.shape != data.shape or not np.array_equal(d, data):
+            bad.append([label, "copy changed when the original was re-set"])
+        else:
+            qa, qb = _eig_queries(obj, target), _eig_queries(P.Transformation(data.copy()), target)
+            if not all(_same_q(x, y) for x, y in zip(qa, qb)):
+                bad.append([label, "queries on the copy differ from a fresh object"])
+
+
+def _hist_point(inp, bad):
+    r = np.random.default_rng(inp["seed"])
+    dim = inp["m"] - 1
+    cnt = inp["stack"] or 1
+    dt0 = inp["dtype"]
+    a = _rnd(r, (cnt, dim), dt0)
+    c = int(r.integers(0, dim + 1))
+    pt = P.Point(a.copy(), chart_index=c)
+    wide = lambda x: np.asarray(x).astype(complex)
+    cur = np.insert(wide(a), c, 1, axis=-1)           # tracked projective data, widest dtype
+    copies = []
+    def differential(what):
+        d = np.asarray(pt.proj_data)
+        if d.dtype == object:
+            bad.append([what, "object dtype"]); return
+        tol = 1e-5 if d.dtype in (np.float32, np.complex64) else 1e-12
+        if d.shape != cur.shape or not np.all(np.abs(wide(d) - cur) <= tol * (1 + np.abs(cur))):
+            bad.append([what, "stored coordinates differ from what was set (dtype %s)" % d.dtype]); return
+        fr = P.Point(np.array(d, copy=True))
+        for cc in range(dim + 1):
+            ok_chart = bool(np.all(cur[..., cc] != 0))
+            qa, qb = gerr(lambda: pt.affine_coords(chart_index=cc)), gerr(lambda: fr.affine_coords(chart_index=cc))
+            if isinstance(qa, str) or isinstance(qb, str):
+                if not (isinstance(qa, str) and isinstance(qb, str) and not ok_chart):
+                    bad.append([what, "GeometryError mismatch in chart %d" % cc])
+                continue
+            ref = np.delete(cur / cur[..., cc:cc + 1], cc, axis=-1)
+            if not (_same_q(wide(qa), wide(qb)) and np.all(np.abs(wide(qa) - ref) <= 100 * tol * (1 + np.abs(ref)))):
+                bad.append([what, "affine_coords(chart %d) differs from fresh object / tracked data" % cc])
+            if np.asarray(pt.in_affine_chart(cc)).tolist() != (cur[..., cc] != 0).tolist():
+                bad.append([what, "in_affine_chart(%d)" % cc])
+    pt.affine_coords(chart_index=c)
+    for step in range(inp["nsteps"]):
+        op = r.choice(["set_affine", "set_affine", "set_proj", "set", "copy_then_setter", "apply", "query"])
+        dt1 = r.choice(["float64", "complex128", "int64", "float32"])     # dtype of the NEW data, independent of the object's
+        what = "step %d: %s <- %s (object built from %s)" % (step, op, dt1, dt0)
+        if op in ("set_affine", "copy_then_setter"):
+            if op == "copy_then_setter":
+                old = np.array(np.asarray(pt.proj_data), copy=True)
+                copies.append((_shallow(pt), old, "shallow copy taken before the affine_coords setter"))
+                copies.append((P.Point(pt), old, "constructor copy taken before the affine_coords setter"))
+            cc = int(r.integers(0, dim + 1))
+            new = _rnd(r, (cnt, dim), dt1)
+            snap = new.copy()
+            got = pt.affine_coords(new, chart_index=cc)
+            if not np.array_equal(new, snap):
+                bad.append([what, "setter changed its argument"])
+            cur = np.insert(wide(snap), cc, 1, axis=-1)
+            if not np.all(np.abs(wide(got) - wide(snap)) <= 1e-5 * (1 + np.abs(wide(snap)))):
+                bad.append([what, "value returned by the setter call"])
+        elif op == "set_proj":
+            new = _rnd(r, (cnt, dim + 1), dt1)
+            pt.projective_coords(new.copy())
+            cur = wide(new)
+        elif op == "set":
+            new = _rnd(r, (cnt, dim + 1), dt1)
+            pt.set(new.copy())
+            cur = wide(new)
+        elif op == "apply":
+            t = r.normal(size=dim)
+            cc = int(r.integers(0, dim + 1))
+            Tt = P.affine_translation(t, chart_index=cc)
+            before = np.array(np.asarray(pt.proj_data), copy=True)
+            pt = Tt @ pt
+            cur = cur @ np.asarray(Tt.proj_data)
+        differential(what)
+        if len(bad) >= 3:
+            return
+    for obj, data, label in copies:
+        if not np.array_equal(np.asarray(obj.proj_data), data):
+            bad.append([label, "copy changed when the original's coordinates were set"])
+
+
+def run_hist(inp):
+    bad = []
+    (_hist_transformation if inp["obj"] == "transformation" else _hist_point)(inp, bad)
+    return {"bad": bad[:3]}
+
+
+def judge_hist(inp, obs, lr):
+    tags0 = {"history": True, "object": inp["obj"]}
+    if "exc" in obs:
+        return {"expected": "every step of the history succeeds", "observed": obs, "tags": dict(tags0, exc=obs["exc"])}
+    if obs["bad"]:
+        return {"expected": "after every step the object answers like a fresh object built from its current data, and holds the data it was given",
+                "observed": obs["bad"], "tags": dict(tags0, site=obs["bad"][0][1])}
+    return None
+
+
+# ------------------------------------------------------------------------------------------------
+# every optional argument of the chart / affine-map functions (enumerated from the signatures), supplied explicitly in
+# every integer / boolean packaging, positionally and by keyword, independently of the data's dtype
+# ------------------------------------------------------------------------------------------------
+import inspect as _inspect
+
+KW16 = {"affine_coords": P.affine_coords, "projective_coords": P.projective_coords, "affine_linear_map": P.affine_linear_map,
+        "affine_translation": P.affine_translation, "Point": P.Point.__init__, "Point.affine_coords": P.Point.affine_coords,
+        "Point.in_affine_chart": P.Point.in_affine_chart}
+INT_PACK = {"int": int, "np.int64": np.int64, "np.int32": np.int32, "np.uint8": np.uint8, "np.intp": np.intp}
+BOOL_PACK = {"bool": bool, "np.bool_": np.bool_, "int01": int}
+
+
+def gen_kw16(rng, n):
+    sigs = {f: [p.name for p in _inspect.signature(fn).parameters.values()
+                if p.name in ("chart_index", "column_vectors", "index")] for f, fn in KW16.items()}
+    for _ in range(n):
+        f = rng.choice(list(KW16))
+        yield {"fn": f, "params": sigs[f], "dim": rng.choice([1, 2, 3]), "ipack": rng.choice(list(INT_PACK)),
+               "bpack": rng.choice(list(BOOL_PACK)), "cv": rng.random() < 0.5, "by_keyword": rng.random() < 0.5,
+               "dtype": rng.choice(["float64", "complex128", "int64", "float32"]), "seed": rng.randrange(10 ** 9)}
+
+
+def run_kw16(inp):
+    r = np.random.default_rng(inp["seed"])
+    dim, f, dt = inp["dim"], inp["fn"], inp["dtype"]
+    c0 = int(r.integers(0, dim + 1))
+    c = INT_PACK[inp["ipack"]](c0)
+    cv = BOOL_PACK[inp["bpack"]](inp["cv"])
+    wide = lambda x: np.asarray(x).astype(complex)
+    tol = 1e-5 if dt == "float32" else 1e-10
+    a = _rnd(r, (3, dim), dt)
+    x = np.insert(wide(a), c0, 1, axis=-1) * (2.0 if dt != "int64" else 2)
+    if dt == "int64":
+        x = x.real.astype(np.int64)
+    elif dt != "complex128":
+        x = x.real.astype(dt)
+    if f == "affine_coords":
+        arg = np.swapaxes(x, -1, -2) if inp["cv"] else x
+        got = P.affine_coords(arg, chart_index=c, column_vectors=cv) if inp["by_keyword"] else P.affine_coords(arg, c, cv)
+        got = np.swapaxes(got, -1, -2) if inp["cv"] else got
+        ref = wide(a)
+    elif f == "projective_coords":
+        arg = np.swapaxes(a, -1, -2) if inp["cv"] else a
+        got = P.projective_coords(arg, chart_index=c, column_vectors=cv) if inp["by_keyword"] else P.projective_coords(arg, c, cv)
+        got = np.swapaxes(got, -1, -2) if inp["cv"] else got
+        ref = np.insert(wide(a), c0, 1, axis=-1)
+    elif f == "affine_linear_map":
+        L = _rnd(r, (dim, dim), dt)
+        T = P.affine_linear_map(L, chart_index=c, column_vectors=cv) if inp["by_keyword"] else P.affine_linear_map(L, c, cv)
+        blk = np.eye(dim + 1, dtype=complex)
+        keep = [i for i in range(dim + 1) if i != c0]
+        blk[np.ix_(keep, keep)] = wide(L)
+        got, ref = np.asarray(T.proj_data), (blk.T if inp["cv"] else blk)
+    elif f == "affine_translation":
+        t = _rnd(r, (dim,), dt)
+        T = P.affine_translation(t, chart_index=c) if inp["by_keyword"] else P.affine_translation(t, c)
+        ref = np.eye(dim + 1, dtype=complex)
+        ref[c0] = np.insert(wide(t), c0, 1)
+        got = np.asarray(T.proj_data)
+    elif f == "Point":
+        pt = P.Point(a, chart_index=c) if inp["by_keyword"] else P.Point(a, c)
+        got, ref = np.asarray(pt.proj_data), np.insert(wide(a), c0, 1, axis=-1)
+    elif f == "Point.affine_coords":
+        pt = P.Point(x)
+        got = pt.affine_coords(chart_index=c) if inp["by_keyword"] else pt.affine_coords(None, c)
+        ref = wide(a)
+    else:
+        pt = P.Point(x)
+        got = np.asarray(pt.in_affine_chart(index=c) if inp["by_keyword"] else pt.in_affine_chart(c)).astype(float)
+        ref = np.ones(3)
+    got = np.asarray(got)
+    if got.dtype == object:
+        return {"object_dtype": True}
+    return {"err": float("inf") if got.shape != ref.shape else float(np.max(np.abs(wide(got) - ref) / (1 + np.abs(ref)))) * (1e-10 / tol)}
+
+
+def judge_kw16(inp, obs, lr):
+    tags0 = {"fn": inp["fn"], "int_packaging": inp["ipack"], "bool_packaging": inp["bpack"], "by_keyword": inp["by_keyword"], "dtype": inp["dtype"]}
+    if "exc" in obs:
+        return {"expected": "a value", "observed": obs, "tags": dict(tags0, exc=obs["exc"])}
+    if obs.get("object_dtype"):
+        return {"expected": "numeric array", "observed": "object dtype", "tags": dict(tags0, object_dtype=True)}
+    if not obs["err"] <= 1e-10:
+        return {"expected": "the reference value for every packaging of chart_index / column_vectors", "observed": obs, "tags": dict(tags0, site="value")}
+    return None
+
+
 CLAUSES = [
     Clause("chart_corr", "corr", gen_chart, run_chart, judge_chart, lean=lean_chart,
            site="projective.affine_coords/projective_coords/Point.in_affine_chart", budget={"quick": 160, "thorough": 4000},
@@ -1318,6 +1618,18 @@ CLAUSES = [
     Clause("eig_corr", "corr", gen_eig, run_eig, judge_eig, lean=lean_eig,
            site="projective.Transformation.eigenvector/diagonalize", budget={"quick": 80, "thorough": 2000},
            what="observed eig output -> model selection (first masked eigenvalue, composite first-match / zero fill, GeometryError) vs returned point; diagonalize data and M.inv()@T@M"),
+    Clause("object_history_oracle", "oracle", gen_hist, run_hist, judge_hist, site="projective.Transformation / Point (histories)",
+           budget={"quick": 200, "thorough": 4000},
+           what="Transformation and Point objects (single and stacks; float64/complex128/int64/float32) that answered queries and are then "
+                "changed by item assignment (ellipsis, int, negative int, slice, index list, boolean mask), set(), the setter forms of "
+                "affine_coords / projective_coords with new data of an independent dtype (int <- float, real <- complex), copied (copy(), "
+                "constructor) before a re-set, inverted, multiplied on either side: after every step eigenvector / diagonalize / "
+                "affine_coords in every chart / in_affine_chart equal those of a fresh object and the tracked data"),
+    Clause("kwargs_oracle", "oracle", gen_kw16, run_kw16, judge_kw16, site="projective.* optional arguments",
+           budget={"quick": 250, "thorough": 5000},
+           what="chart_index / column_vectors / index of affine_coords, projective_coords, affine_linear_map, affine_translation, Point(...), "
+                "Point.affine_coords, Point.in_affine_chart supplied as int / np.int64 / np.int32 / np.uint8 / np.intp and bool / np.bool_ / 0-1, "
+                "positionally and by keyword, for float64 / complex128 / int64 / float32 data, against independent references"),
     Clause("isolation_oracle", "oracle", gen_iso16, run_iso16, judge_iso16, site="projective.* (histories)",
            budget={"quick": 150, "thorough": 3000},
            what="generic defences G1-G4: histories of 4-8 unrelated calls in one dimension (charts, translations, linear maps, hyperplane "
